@@ -8,6 +8,7 @@ import (
 	"encoding/hex"
 	"encoding/json"
 	"fmt"
+	"strings"
 
 	"github.com/wolimst/lib-secs2-hsms-go/pkg/ast"
 	"github.com/wolimst/lib-secs2-hsms-go/pkg/parser/hsms"
@@ -47,7 +48,8 @@ func (o hobj) abs() J {
 		return J{"kind": "ctrl", "abs": J{"hdr": bytesJ(h)}}
 	}
 	if o.msg != nil {
-		return J{"kind": "msg", "abs": projMsg(o.msg)}
+		// (what the message encodes to is part of what a producer hands over: judged against the fields by C18)
+		return J{"kind": "msg", "abs": projMsg(o.msg), "bytes": bytesJ(o.msg.ToBytes())}
 	}
 	return J{"kind": "item", "abs": projItem(o.item)}
 }
@@ -67,6 +69,8 @@ func scribbleNames(v []string) {
 type fillArgs struct {
 	l0, x, n int
 	a, c     string
+	plain    bool // no item goes in: the repeat count and a value for a variable of a nested list behind the repeat marker
+	again    int  // the same template filled once more afterwards (another count, another value)
 }
 
 type sessArgs struct {
@@ -180,6 +184,10 @@ func driverHist(c *Ctx) {
 				scribbleBytes(buf)
 			case kind == 0 || len(its) == 0:
 				t := g.tree(g.pick(2), g.pick(2) == 0)
+				if g.pick(10) == 0 {
+					// a text of more than a page: messages on it are large enough for whatever is kept per large message
+					t = &GItem{F: "L", Kids: []*GItem{{F: "A", Str: strings.Repeat("0123456789abcdef", 260+g.pick(40))}, {F: "U1", Vals: []interface{}{uint64(g.pick(256))}}}}
+				}
 				if g.pick(6) == 0 {
 					// a wide list - 63, 64, 65 ... direct items - of constants with a few variables of its own
 					n := []int{31, 32, 33, 63, 64, 65, 127, 128, 129}[g.pick(9)]
@@ -206,7 +214,18 @@ func driverHist(c *Ctx) {
 				// for a variable *inside that item* in one call - the item stays the caller's
 				pf := pendingFill
 				pendingFill = nil
-				if pf.l0 < len(objs) && pf.x < len(objs) && objs[pf.l0].item != nil && objs[pf.x].item != nil {
+				if pf.plain && pf.l0 < len(objs) && objs[pf.l0].item != nil {
+					val := 7 + pf.again
+					sig := map[string]interface{}{"...": pf.n, pf.c: val}
+					sj := []interface{}{J{"k": chars(pf.c), "v": intJ(int64(val))}}
+					op = J{"k": "fillitem", "id": pf.l0 + 1, "sigma": sj, "cnt": []interface{}{J{"k": chars("..."), "n": pf.n}}}
+					addItem(func() ast.ItemNode { return objs[pf.l0].item.FillVariables(sig) })
+					if pf.again < 1 {
+						pendingFill = &fillArgs{l0: pf.l0, c: pf.c, n: (pf.n + 1) % 3, plain: true, again: pf.again + 1}
+					}
+				} else if pf.plain {
+					op = J{"k": "observeitem", "id": 1}
+				} else if pf.l0 < len(objs) && pf.x < len(objs) && objs[pf.l0].item != nil && objs[pf.x].item != nil {
 					sig := map[string]interface{}{"...": pf.n, pf.a: objs[pf.x].item, pf.c: 7}
 					sj := []interface{}{J{"k": chars(pf.a), "v": projItem(objs[pf.x].item)}, J{"k": chars(pf.c), "v": intJ(7)}}
 					op = J{"k": "fillitem", "id": pf.l0 + 1, "sigma": sj, "cnt": []interface{}{J{"k": chars("..."), "n": pf.n}}}
@@ -239,6 +258,23 @@ func driverHist(c *Ctx) {
 					})
 					pendingFill = &fillArgs{l0: mi + 2, x: mi + 1, a: a, c: cn, n: g.pick(3)}
 					_ = b
+				}
+			case kind == 2 && g.pick(6) == 0:
+				// scripted: U = <U1 d>, M = <L U e>, L0 = <L a ... M>, then L0 filled with {...: n, d: 7} - an ellipsis and a
+				// variable of the nested list *behind* it in one call - and once more with another count and value
+				a, d, e := g.newVar(), g.newVar(), g.newVar()
+				op = J{"k": "newitem"}
+				addItem(func() ast.ItemNode { return ast.NewUintNode(1, d) })
+				if res["outcome"] == "new" {
+					ui := len(objs) - 1
+					mi := ui + 1
+					script = append(script, func() ([]interface{}, []interface{}) {
+						return []interface{}{objs[ui].item, e}, []interface{}{J{"id": ui + 1}, J{"var": chars(e)}}
+					})
+					script = append(script, func() ([]interface{}, []interface{}) {
+						return []interface{}{a, "...", objs[mi].item}, []interface{}{J{"var": chars(a)}, J{"ell": -1}, J{"id": mi + 1}}
+					})
+					pendingFill = &fillArgs{l0: mi + 1, c: d, n: 1 + g.pick(2), plain: true}
 				}
 			case kind == 1 && g.pick(3) == 0:
 				// one list of k fresh variables that becomes the first element of two further lists, each with
